@@ -299,6 +299,11 @@ def rule_guard(ctx, prop):
                     hit = unmatched.pop(0)
                     still.remove(node)
                     rep.inst(f"stylua_lib::{fn} {pred}({node})", {"asked_as": hit}, cfg, ok=True)
+            # a current test about a value that came out of merged match arms (`local`) may stand for several frozen sub-node tests
+            if any(_steps(c)[:1] == ["local"] for c in cur):
+                for node in list(still):
+                    still.remove(node)
+                    rep.inst(f"stylua_lib::{fn} {pred}({node})", {"asked_as": "local (merged arms)"}, cfg, ok=True)
             for node in still:
                 others = sorted(f"{p}({nd})" for p, nd, _ in by_fn.get(fn, []))
                 rep.inst(f"stylua_lib::{fn} {pred}({node})", None, cfg, ok=False)
